@@ -109,19 +109,25 @@ TypedViols(r) ==
        ELSE {<<PropOf(r.cmd), "the typed value does not carry exactly what the server sent", r.cmd>>}
 
 \* ---- typed command lists: position k holds kind k % 4 (sticker get / update / add / channels); vec: sticker get only
+\* shape "arts": binary-bearing commands inside a list (kind 5 = album art from either source)
+ArtsKinds == <<1, 5, 5, 5, 2, 5, 1, 5>>
 PosExpected(shape, k, fr) ==
-  LET kind == IF shape = "vec" THEN 1 ELSE ((k - 1) % 4) + 1 IN
-  CASE kind = 1 -> (LET x == StickerGet(fr.fields) IN [st |-> x.st, val |-> <<"sticker", x.val>>])
+  LET kind == IF shape = "vec" THEN 1 ELSE IF shape = "arts" THEN ArtsKinds[k] ELSE ((k - 1) % 4) + 1 IN
+  CASE kind = 5 -> (LET x == Art(fr.fields, fr.bin) IN [st |-> x.st, val |-> <<"art", x.val>>])
+    [] kind = 1 -> (LET x == StickerGet(fr.fields) IN [st |-> x.st, val |-> <<"sticker", x.val>>])
     [] kind = 2 -> (LET x == OneNum(fr.fields, K_updating_db) IN [st |-> x.st, val |-> <<"update", x.val>>])
     [] kind = 3 -> (LET x == OneNum(fr.fields, K_Id) IN [st |-> x.st, val |-> <<"add", x.val>>])
     [] OTHER -> (LET x == Channels(fr.fields) IN [st |-> x.st, val |-> <<"channels", x.val>>])
+ItemEq(v, e) == IF e[1] = "art" THEN v[1] = "art" /\ (IF ~e[2].some THEN ~v[2].some
+                                                       ELSE v[2].some /\ v[2].size = e[2].size /\ v[2].mime = e[2].mime /\ v[2].data = e[2].data)
+                ELSE v = e
 ListViols(r) ==
   IF r.out = "panic" THEN {<<"C12", "typed command list conversion panicked", r.shape>>}
   ELSE IF r.nframes # r.arity THEN {}                       \* frame count mismatch: only totality (C12) is demanded
   ELSE LET exps == [k \in 1..r.arity |-> PosExpected(r.shape, k, r.frames[k])] IN
        IF \E k \in 1..r.arity : exps[k].st # "ok" THEN {}
        ELSE IF r.out # "ok" THEN {<<"C13", "a typed list of well-formed frames was rejected", r.shape>>}
-       ELSE IF r.val.items = [k \in 1..r.arity |-> exps[k].val] THEN
+       ELSE IF \A k \in 1..r.arity : ItemEq(r.val.items[k], exps[k].val) THEN
                (IF r.shape = "vec" /\ r.arity = 0 /\ r.val.wire_some THEN {<<"C13", "an empty typed list would write a request", r.shape>>} ELSE {})
        ELSE {<<"C13", "the i-th typed response is not decoded from the frame of the i-th command", r.shape>>}
 
